@@ -648,13 +648,18 @@ theorem train_mem (s : Sys) (a : Nat) : (s.train a).1.mem = s.mem := by
   · rfl
 
 theorem step_mem (s : Sys) (op : Op) (h : ∀ a, op ≠ .inspect a) (h2 : ∀ k, op ≠ .pruneOld k)
-    (h3 : ∀ d, op ≠ .importSigs d) : (s.step op).1.mem = s.mem := by
+    (h3 : ∀ d, op ≠ .importSigs d) (h4 : ∀ c, op ≠ .setCap c) : (s.step op).1.mem = s.mem := by
   cases op with
+  | setCap c => exact absurd rfl (h4 c)
   | inspect a => exact absurd rfl (h a)
   | pruneOld k => exact absurd rfl (h2 k)
   | importSigs d => exact absurd rfl (h3 d)
   | markUpdated a => simp only [Sys.step, Sys.markUpdated]; split <;> rfl
   | expire => rfl
+  | setRep a k => simp only [Sys.step, Sys.configT]; split <;> rfl
+  | setAnergy a k => simp only [Sys.step, Sys.configT]; split <;> rfl
+  | setProfile a pr => simp only [Sys.step, Sys.configT]; split <;> rfl
+  | setTreg g => rfl
   | train a => exact train_mem s a
   | register a => rfl
   | showP a p => simp only [Sys.step, Sys.showPeptide]; split <;> rfl
@@ -755,9 +760,15 @@ theorem step_genuine (s : Sys) (pre : List Obs) (op : Op) (hwf : op.WF) (h : Mem
     · obtain ⟨g1, g3⟩ := h x hx
       exact ⟨g1, provenance_of_core _ _ _ _ rfl g3⟩
     · exact ⟨wellFormed_of_core _ _ hc (hwf y hy), Or.inr ⟨data, by simp, y, hy, hc⟩⟩
-  | register a | showP a p | train a | flag a b | reset a | resetFA a | dropRecord a | markUpdated a | expire =>
+  | setCap c =>
     intro x hx
-    rw [step_mem s _ (by intro a h; cases h) (by intro a h; cases h) (by intro a h; cases h)] at hx
+    obtain ⟨g1, g3⟩ := h x hx
+    exact ⟨g1, provenance_of_core _ _ _ _ rfl g3⟩
+  | register a | showP a p | train a | flag a b | reset a | resetFA a | dropRecord a | markUpdated a | expire
+    | setRep a k | setAnergy a k | setProfile a pr | setTreg g =>
+    intro x hx
+    rw [step_mem s _ (by intro a h; cases h) (by intro a h; cases h) (by intro a h; cases h)
+      (by intro a h; cases h)] at hx
     obtain ⟨g1, g3⟩ := h x hx
     exact ⟨g1, provenance_of_core _ _ _ _ rfl g3⟩
 
@@ -936,74 +947,86 @@ theorem self_tolerance (s : Sys) (a : Nat) (htol : 0 ≤ s.tol)
 
 /-! T-cell histories -/
 
-/-- consecutive violating inspections at the end of a history (argument: most recent operation first) -/
-def trailingAnomalies (pr : Profile) : List TOp → Nat
+/-- consecutive violating inspections at the end of a history (argument: the log, most recent operation first).
+    An inspection is judged by the baseline in force when it happened; inspections made while the watcher was
+    anergic do not count either way (it was not looking); assignments and flags do not interrupt a streak. -/
+def trailingAnomalies : List (TOp × Bool × Profile) → Nat
   | [] => 0
-  | .inspect p :: rest => if check pr p = [] then 0 else trailingAnomalies pr rest + 1
-  | .flag _ :: rest => trailingAnomalies pr rest
-  | .reset :: _ => 0
-  | .resetFA :: _ => 0
+  | (.inspect p, anergic, pr) :: rest =>
+    if anergic then trailingAnomalies rest
+    else if check pr p = [] then 0 else trailingAnomalies rest + 1
+  | (.reset, _, _) :: _ => 0
+  | (.resetFA, _, _) :: _ => 0
+  | (.flag _, _, _) :: rest => trailingAnomalies rest
+  | (.setRep _, _, _) :: rest => trailingAnomalies rest
+  | (.setAnergy _, _, _) :: rest => trailingAnomalies rest
+  | (.setProfile _, _, _) :: rest => trailingAnomalies rest
 
 /-- a non-empty manual flag was set and not cleared by a reset since (most recent operation first) -/
-def flaggedSince : List TOp → Bool
+def flaggedSince : List (TOp × Bool × Profile) → Bool
   | [] => false
-  | .flag b :: _ => b
-  | .reset :: _ => false
-  | .inspect _ :: rest => flaggedSince rest
-  | .resetFA :: rest => flaggedSince rest
+  | (.flag b, _, _) :: _ => b
+  | (.reset, _, _) :: _ => false
+  | (_, _, _) :: rest => flaggedSince rest
 
-/-- invariant of a T-cell history; `h` is the history so far, most recent operation first -/
-structure TInv (pr : Profile) (rep : Int) (t : TCell) (h : List TOp) : Prop where
-  prof : t.profile = pr
-  rep : t.repThr = rep
-  streak : t.anomaly ≤ trailingAnomalies pr h
+/-- invariant of a T-cell history; `h` is the log so far, most recent operation first -/
+structure TInv (t : TCell) (h : List (TOp × Bool × Profile)) : Prop where
+  streak : t.anomaly ≤ trailingAnomalies h
   flag : t.flag = true → flaggedSince h = true
-  quiet : t.isAnergic = true → t.anomaly = 0
 
-theorem tstep_inv (pr : Profile) (rep : Int) (t : TCell) (h : List TOp) (op : TOp) (inv : TInv pr rep t h) :
-    TInv pr rep (t.step op).1 (op :: h) := by
-  obtain ⟨h1, h2, h3, h4, h5⟩ := inv
+theorem tstep_inv (t : TCell) (h : List (TOp × Bool × Profile)) (op : TOp) (inv : TInv t h) :
+    TInv (t.step op).1 ((op, t.isAnergic, t.profile) :: h) := by
+  obtain ⟨h3, h4⟩ := inv
   cases op with
   | inspect p =>
     simp only [TCell.step]
     unfold TCell.inspect
     by_cases ha : t.isAnergic = true
     · simp only [ha, if_true]
-      exact ⟨h1, h2, by rw [h5 ha]; exact Nat.zero_le _, by simpa [flaggedSince] using h4, h5⟩
+      exact ⟨by simpa [trailingAnomalies] using h3, by simpa [flaggedSince] using h4⟩
     · have ha' : t.isAnergic = false := by simpa using ha
       simp only [ha', Bool.false_eq_true, if_false]
       by_cases hc : (check t.profile p).isEmpty = true
       · simp only [hc, if_true]
-        exact ⟨h1, h2, Nat.zero_le _, by simpa [flaggedSince] using h4, fun _ => rfl⟩
+        exact ⟨Nat.zero_le _, by simpa [flaggedSince] using h4⟩
       · have hc' : (check t.profile p).isEmpty = false := by simpa using hc
         simp only [hc', Bool.false_eq_true, if_false]
-        have hne : check pr p ≠ [] := by rw [← h1]; simpa using hc
-        refine ⟨h1, h2, ?_, by simpa [flaggedSince] using h4, ?_⟩
-        · simp only [trailingAnomalies, hne, if_false]; omega
-        · intro hx; exact absurd hx ha
+        have hne : check t.profile p ≠ [] := by simpa using hc
+        refine ⟨?_, by simpa [flaggedSince] using h4⟩
+        simp only [trailingAnomalies, hne, if_false, Bool.false_eq_true]; omega
   | flag b =>
     simp only [TCell.step, TCell.flagManually]
-    exact ⟨h1, h2, by simpa [trailingAnomalies] using h3, by simp [flaggedSince], h5⟩
+    exact ⟨by simpa [trailingAnomalies] using h3, by simp [flaggedSince]⟩
   | reset =>
     simp only [TCell.step, TCell.reset]
-    exact ⟨h1, h2, Nat.zero_le _, by simp, fun _ => rfl⟩
+    exact ⟨Nat.zero_le _, by simp⟩
   | resetFA =>
     simp only [TCell.step, TCell.resetFA]
-    exact ⟨h1, h2, Nat.zero_le _, by simpa [flaggedSince] using h4, fun _ => rfl⟩
+    exact ⟨Nat.zero_le _, by simpa [flaggedSince] using h4⟩
+  | setRep k =>
+    simp only [TCell.step, TCell.setRep]
+    exact ⟨by simpa [trailingAnomalies] using h3, by simpa [flaggedSince] using h4⟩
+  | setAnergy k =>
+    simp only [TCell.step, TCell.setAnergy]
+    exact ⟨by simpa [trailingAnomalies] using h3, by simpa [flaggedSince] using h4⟩
+  | setProfile pr =>
+    simp only [TCell.step, TCell.setProfile]
+    exact ⟨by simpa [trailingAnomalies] using h3, by simpa [flaggedSince] using h4⟩
 
-theorem trun_inv (pr : Profile) (rep : Int) (ops : List TOp) : ∀ (t : TCell) (h : List TOp), TInv pr rep t h →
-    TInv pr rep (t.run ops) (ops.reverse ++ h) := by
+theorem trun_inv (ops : List TOp) : ∀ (t : TCell) (h : List (TOp × Bool × Profile)), TInv t h →
+    TInv (t.run ops) ((t.log ops).reverse ++ h) := by
   induction ops with
-  | nil => intro t h inv; simpa [TCell.run] using inv
+  | nil => intro t h inv; simpa [TCell.run, TCell.log] using inv
   | cons op rest ih =>
     intro t h inv
-    have := ih _ _ (tstep_inv pr rep t h op inv)
-    simpa [TCell.run] using this
+    have := ih _ _ (tstep_inv t h op inv)
+    simpa [TCell.run, TCell.log] using this
 
-theorem fresh_inv (pr : Profile) (rep an : Int) : TInv pr rep (TCell.fresh pr rep an) [] :=
-  ⟨rfl, rfl, Nat.le_refl _, by simp [TCell.fresh], fun _ => rfl⟩
+theorem fresh_inv (pr : Profile) (rep an : Int) : TInv (TCell.fresh pr rep an) [] :=
+  ⟨Nat.le_refl _, by simp [TCell.fresh]⟩
 
-theorem tstep_anergic (t : TCell) (op : TOp) (h : t.isAnergic = true) : (t.step op).1.isAnergic = true := by
+theorem tstep_anergic (t : TCell) (op : TOp) (hop : ∀ k, op ≠ .setAnergy k) (h : t.isAnergic = true) :
+    (t.step op).1.isAnergic = true := by
   cases op with
   | inspect p =>
     simp only [TCell.step]
@@ -1011,18 +1034,22 @@ theorem tstep_anergic (t : TCell) (op : TOp) (h : t.isAnergic = true) : (t.step 
     simp [h]
   | flag b => exact h
   | reset => exact h
+  | setRep k => exact h
+  | setProfile pr => exact h
+  | setAnergy k => exact absurd rfl (hop k)
   | resetFA =>
     simp only [TCell.step, TCell.resetFA, TCell.isAnergic, decide_eq_true_eq] at h ⊢
     by_cases hcnd : t.lastS1 = .nonSelf ∧ t.lastS2 = .absent
     · simp only [hcnd, and_self, if_true, decide_eq_true_eq]; omega
     · simp only [hcnd, if_false, decide_eq_true_eq]; exact h
 
-theorem trun_anergic (ops : List TOp) : ∀ t : TCell, t.isAnergic = true → (t.run ops).isAnergic = true := by
+theorem trun_anergic (ops : List TOp) : ∀ t : TCell, (∀ op ∈ ops, ∀ k, op ≠ .setAnergy k) → t.isAnergic = true →
+    (t.run ops).isAnergic = true := by
   induction ops with
-  | nil => intro t h; simpa [TCell.run] using h
-  | cons op rest ih => intro t h; exact ih _ (tstep_anergic t op h)
-
-
+  | nil => intro t _ h; simpa [TCell.run] using h
+  | cons op rest ih =>
+    intro t hops h
+    exact ih _ (fun o ho => hops o (List.mem_cons_of_mem _ ho)) (tstep_anergic t op (hops op List.mem_cons_self) h)
 
 /-! ### MHC display -/
 
